@@ -170,8 +170,9 @@ func (node *Node) processUnconfirmedTx(ctx context.Context, tx handlers.TxData) 
 		txState.State.UnconfirmedDepth = 1
 	}
 
-	if len(conflicts) > 0 {
-		// Unsafe
+	if len(conflicts) > 0 || txState.State.UnSafe || txState.State.Cancelled {
+		// Unsafe. This includes a tx that was reported unsafe before and is seen as new again, which
+		// happens when the block that confirmed it was reorged out. It must not turn safe again.
 		txState.State.UnSafe = true
 		txState.State.Safe = false
 	}
